@@ -447,6 +447,13 @@ def _run(ck):
         arg = c['args'][pidx]
         org = H.origins(fn, arg)
         gen_calls = [o for o in org if o.get('k') == 'MCall' and o.get('m') == 'generate' and 'UniqueNameGenerator' in (L.ty(o['recv'], adjusted=True) or L.ty(o['recv']) or '')]
+        # .. or of a helper of this module that does nothing but return such a result
+        for o in org:
+            hf = L.fn(H.callee(o) or '?') if o.get('k') == 'Call' else None
+            if hf is not None and hf.get('body') is not None and hf in bfns:
+                rets_ = [H.strip_refs(r_) for r_ in H.return_exprs(hf['body'])]
+                if rets_ and all(r_.get('k') == 'MCall' and r_.get('m') == 'generate' and 'UniqueNameGenerator' in (L.ty(r_['recv'], adjusted=True) or L.ty(r_['recv']) or '') for r_ in rets_):
+                    gen_calls.append(o)
         own_idx = name_param_index(fn)
         from_param = [o for o in org if o.get('k') == 'Bind' and own_idx is not None and (H.binding_sites(fn).get(o.get('hid')) or {}).get('index') == own_idx and (H.binding_sites(fn).get(o.get('hid')) or {}).get('kind') == 'param']
         other = [o for o in org if o not in gen_calls and o not in from_param]
